@@ -12,9 +12,10 @@ CONSTANTS
  Chunks = {1, 6}
  LyingSizes = FALSE
  InlineData = FALSE
- Conc = 64
+ Conc = 3
  Probes = FALSE
  Exts = {FALSE}
+ KeepSlots = FALSE
 INIT Init
 NEXT Next
 VIEW View
